@@ -112,17 +112,45 @@ def histories(tier):
     return out
 
 
+# in-place updates through out= that also carry an explicit constant= (either way): the update of a shared tensor must mark L stale
+# whatever flag the statement asks for
+CONSTOUT_EVENTS = ["mg.multiply(c1, c2, out=x, constant=True)", "mg.multiply(c1, c2, out=x, constant=False)", "mg.multiply(c1, c2, out=m, constant=True)",
+                   "mg.add(x, c1, out=x, constant=True)", "mg.multiply(c1, c2, out=xv, constant=True)"]
+
+
+def constout_histories(tier):
+    out = []
+    others = ["z.backward()", "z.clear_graph()", "w = x * c2"]
+    for pname in ("direct", "view", "sumL", "inter", "both"):
+        prefix = PREFIXES[pname]
+        defined = {ln.split(" = ")[0] for ln in prefix}
+        for e in CONSTOUT_EVENTS:
+            tgt = e.split("out=")[1].split(",")[0]
+            if tgt not in defined | {"x"}:
+                continue
+            # (histories with clear_graph() followed by a re-use are the open known finding of the main family: not repeated here)
+            for pre in ((), ("z.backward()",), ("w = x * c2",)):
+                for post in ((), ("z.backward()",)):
+                    if pre == post == ("z.backward()",):
+                        continue
+                    out.append((pname, prefix + list(pre) + [e] + list(post)))
+    return out
+
+
 def cases(tier):
     hs = histories(tier)
     out = []
     size = 60
     for i in range(0, len(hs), size):
         out.append({"name": "hist/%d" % i, "progs": hs[i:i + size]})
+    hs = constout_histories(tier)
+    for i in range(0, len(hs), 30):
+        out.append({"name": "constout/%d" % i, "progs": hs[i:i + 30]})
     return out
 
 
 def replay_source(lines):
-    return '''import sys
+    return '''import sys, re
 import numpy as np
 import mygrad as mg
 from mygrad.errors import InvalidBackprop
@@ -135,6 +163,7 @@ def rawwrite(t):
     try: t.data[...] = 123.0 + np.arange(t.size).reshape(t.shape)
     except ValueError: pass
 def tgt(line):
+    if "out=" in line: return line.split("out=")[1].split(",")[0].split(")")[0].strip()
     h = line.split("=")[0].strip()
     for s in ("[", ".", " "): h = h.split(s)[0]
     return h
@@ -143,8 +172,8 @@ def twin(cut=None):
     if cut is not None and cut[1] < 0: A[cut[0]][...] = cut[2].reshape(A[cut[0]].shape)
     hist = []
     for i, ln in enumerate(LINES):
-        if not graph_only(ln): exec(ln, A)
-        ip = ("[" in ln.split("=")[0]) or " *= " in ln
+        if not graph_only(ln): exec(re.sub(r",\\s*constant=(True|False|None)", "", ln).replace("mg.", "np."), A)
+        ip = ("[" in ln.split("=")[0]) or " *= " in ln or "out=" in ln
         if cut is not None and cut[1] == i: A[cut[0]][...] = cut[2].reshape(A[cut[0]].shape)
         hist.append(({n: A[n].copy() for n in NAMES if n in A}, {n: bool(ip and not graph_only(ln) and np.shares_memory(A[tgt(ln)], A[n])) for n in NAMES if n in A}))
     return A, hist
